@@ -67,6 +67,16 @@ CHECKS = {
          "counts and every read must be counted under its documented group.",
          "Trusted: expected-count construction in props/c09.py (worlds contain only uniquely assigned reads).",
          "DESIGN.md §3 C09"),
+ "C02": ("exploration",
+         "bounded-exhaustive enumeration of read-assignment multisets x 5x5 strategies x normalisations on the real counters through dump/merge/TPM files; cross-file recount on pipeline runs",
+         "All multisets of <=2/3 reads over 12 assignment kinds (unique, minor difference, mono-exonic corrected alignment, mono-exonic isoform, "
+         "ambiguous within/between genes, three inconsistent kinds, unassigned) split over two chromosome parts are pushed through the real "
+         "create_*_counter -> dump -> merge_counts -> convert_counts_to_tpm under every gene/transcript strategy and both normalisations; the "
+         "printed files are compared with the weight table of docs/cmd.md (value in {0, sum}, confirmed features never zeroed, stat lines, TPM). "
+         "Pipeline level: gene/transcript/transcript_model tables of complete runs are recomputed from read_assignments.tsv, corrected BED and "
+         "transcript_model_reads.tsv for every strategy pair.",
+         "Trusted: the weight function transcribed from the documentation; TSV/BED parsers. Multi-locus ties are C08's subject.",
+         "DESIGN.md §3 C02"),
 }
 
 NOT_YET = {}
